@@ -563,5 +563,15 @@ def rule_channel_complete_flag(ctx):
 
 
 
+
+def rule_dead_handlers_silenced(ctx):
+    """(shared C11.c)  No frame is written for a stream that was not opened on the current connection: the close loop
+    silences every handler of the lost connection synchronously - dispose() cancels the handler's producer on every
+    path - so nothing the old connection's publishers still hold is written to the connection that replaces it
+    (rules/c11.py)."""
+    from .c11 import rule_c as c11c
+    c11c(ctx)
+
+
 RULES = [('C08.a', rule_a), ('C08.b', rule_b), ('C08.c', rule_c), ('C08.d', rule_d), ('C08.e', rule_e),
-         ('C08.f', rule_f), ('C08.g', rule_g), ('C05.a', rule_order), ('C13.a+C16.b', rule_h), ('C09.a+C20.d', rule_i), ('C08.i', rule_j), ('C07.e', rule_genpub), ('C01.a', rule_dispatch_by_own_id), ('C01.h', rule_adapter_delegations), ('C08.j', rule_channel_complete_flag)]
+         ('C08.f', rule_f), ('C08.g', rule_g), ('C05.a', rule_order), ('C13.a+C16.b', rule_h), ('C09.a+C20.d', rule_i), ('C08.i', rule_j), ('C07.e', rule_genpub), ('C01.a', rule_dispatch_by_own_id), ('C01.h', rule_adapter_delegations), ('C08.j', rule_channel_complete_flag), ('C11.c', rule_dead_handlers_silenced)]
